@@ -165,11 +165,39 @@ def onAuth (c : Conn) (good : Bool) : List HsItem × Phase :=
      .closed)
   else ([.lit "SecurityResult" (be32 rfbVncAuthFailed)], .closed)
 
+structure ServerInit where
+  w : Nat
+  h : Nat
+  pf : Bytes            -- the 16 bytes of rfbPixelFormat
+  name : Bytes
+  deriving Repr, DecidableEq
+
+def serServerInit (si : ServerInit) : Bytes :=
+  be16 si.w ++ (be16 si.h ++ (si.pf ++ (be32 si.name.length ++ si.name)))
+
+/-- strict parse of a ServerInit message: the name is exactly `nameLength` bytes -/
+def parseServerInit (bs : Bytes) : Option (ServerInit × Bytes) :=
+  match rd16 bs with
+  | none => none
+  | some (w, r1) =>
+    match rd16 r1 with
+    | none => none
+    | some (h, r2) =>
+      match takeN sz_rfbPixelFormat r2 with
+      | none => none
+      | some (pf, r3) =>
+        match rd32 r3 with
+        | none => none
+        | some (n, r4) =>
+          match takeN n r4 with
+          | none => none
+          | some (name, r5) => some (⟨w, h, pf, name⟩, r5)
+
 /-- the ServerInit message the property demands: real size, real pixel format, real name
 (`strncpy(…, 127)`: the name is cut to 127 bytes by the code; accepted and documented) -/
-def serverInitBytes (s : Screen) : Bytes :=
-  let nm := s.name.take 127
-  be16 s.w ++ be16 s.h ++ s.pf ++ be32 nm.length ++ nm
+def realServerInit (s : Screen) : ServerInit := ⟨s.w, s.h, s.pf, s.name.take 127⟩
+
+def serverInitBytes (s : Screen) : Bytes := serServerInit (realServerInit s)
 
 /-! ### planning of one FramebufferUpdate (at the time the pre-encode hook fires) -/
 
@@ -196,49 +224,96 @@ def allowedEncs (enc : Nat) : List Nat :=
 
 def boolN (b : Bool) : Nat := if b then 1 else 0
 
+/-- which pseudo-rectangles this update carries (the booleans at the top of
+rfbSendFramebufferUpdate) -/
+structure PseudoFlags where
+  shape : Bool
+  pos : Bool
+  led : Bool
+  supMsgs : Bool
+  supEncs : Bool
+  identity : Bool
+  deriving Repr, DecidableEq
+
+def PseudoFlags.count (f : PseudoFlags) : Nat :=
+  boolN f.shape + boolN f.pos + boolN f.led + boolN f.supMsgs + boolN f.supEncs + boolN f.identity
+
+def pseudoFlags (s : Screen) (c : Conn) : PseudoFlags :=
+  let k := c.caps
+  { shape := k.cursorShape && k.cursorWasChanged && c.ready,
+    pos := k.cursorPos && k.cursorWasMoved,
+    led := k.led && s.cfg.ledHook && s.led != c.lastLed,
+    supMsgs := k.supMsgs, supEncs := k.supEncs, identity := k.identity }
+
+def cursorEnc (k : Caps) : Nat := if k.richCursor then rfbEncodingRichCursor else rfbEncodingXCursor
+
+/-- the pseudo-rectangles, in the order rfbSendFramebufferUpdate emits them -/
+def pseudoPats (s : Screen) (c : Conn) (f : PseudoFlags) : List RPat :=
+  (if f.shape then
+    [if cursorFits c.caps.richCursor c.bpp s.curW s.curH then
+       RPat.cursor (cursorEnc c.caps) s.curXhot s.curYhot s.curW s.curH
+     else RPat.cursor (cursorEnc c.caps) 0 0 0 0] else []) ++
+  (if f.pos then [RPat.pseudo rfbEncodingPointerPos] else []) ++
+  (if f.led then [RPat.pseudo rfbEncodingKeyboardLedState] else []) ++
+  (if f.supMsgs then [RPat.pseudo rfbEncodingSupportedMessages] else []) ++
+  (if f.supEncs then [RPat.pseudo rfbEncodingSupportedEncodings] else []) ++
+  (if f.identity then [RPat.pseudo rfbEncodingServerIdentity] else [])
+
+/-- region rectangle as the client sees it (rfbScaledCorrection is the identity for unscaled clients) -/
+def viewGeo (s : Screen) (c : Conn) (g : Geo) : Geo :=
+  match c.scaled with
+  | some (vw, vh) => scaledCorrection s.w s.h vw vh g
+  | none => g
+
+/-- rfbSendCopyRegion: one CopyRect rectangle per region rectangle -/
+def copyPats (s : Screen) (c : Conn) (o : HookObs) : List RPat :=
+  let dxs := match c.scaled with
+    | some (vw, _) => scaleInt s.w vw o.dx
+    | none => o.dx
+  let dys := match c.scaled with
+    | some (vw, _) => scaleInt s.w vw o.dy      -- ScaleX is used for dy too
+    | none => o.dy
+  o.cpy.map fun g0 =>
+    let g := viewGeo s c g0
+    RPat.copy g (u16 ((g.x : Int) - dxs)) (u16 ((g.y : Int) - dys))
+
+/-- the encoded rectangles of the update region -/
+def pixPats (enc : Nat) (lastRect : Bool) (gs : List Geo) : List RPat :=
+  gs.flatMap fun g =>
+    match emitFor enc lastRect g with
+    | some l => l.map fun q => RPat.exact q (allowedEncs enc)
+    | none => [RPat.tightAny enc g]
+
+def tailPats (regionN : Nat) : List RPat :=
+  if sendsLastRect regionN then [RPat.pseudo rfbEncodingLastRect] else []
+
+/-- `cl->preferredEncoding`; `case -1:` is handled like Raw -/
+def Conn.enc (c : Conn) : Nat := c.caps.preferred.getD rfbEncodingRaw
+
+/-- the update region in client coordinates -/
+def viewRegion (s : Screen) (c : Conn) (o : HookObs) : List Geo := o.upd.map (viewGeo s c)
+
 /-- the decisions taken at the top of rfbSendFramebufferUpdate plus the announced count and the
 predicted rectangle list; returns the updated connection (one-shot flags consumed) -/
 def planUpdate (s : Screen) (c : Conn) (o : HookObs) : Conn × Pred :=
   let k := c.caps
-  let sendShape := k.cursorShape && k.cursorWasChanged && c.ready
-  let sendPos := k.cursorPos && k.cursorWasMoved
-  let sendLed := k.led && s.cfg.ledHook && s.led != c.lastLed
-  let sendSM := k.supMsgs
-  let sendSE := k.supEncs
-  let sendID := k.identity
-  let enc := k.preferred.getD rfbEncodingRaw     -- `case -1:` is handled like Raw
-  let (vw, vh) := c.viewSize s
-  let scaledOn := c.scaled.isSome
-  let corr := fun (g : Geo) => if scaledOn then scaledCorrection s.w s.h vw vh g else g
-  let gs := o.upd.map corr
-  let regionN := regionCount enc k.lastRect gs 0
-  let pseudoN := boolN sendShape + boolN sendPos + boolN sendLed + boolN sendSM + boolN sendSE + boolN sendID
-  let nRects := nRectsField o.cpy.length regionN pseudoN
-  let dxs := if scaledOn then scaleInt s.w vw o.dx else o.dx
-  let dys := if scaledOn then scaleInt s.w vw o.dy else o.dy      -- ScaleX is used for dy too
-  let curEnc := if k.richCursor then rfbEncodingRichCursor else rfbEncodingXCursor
-  let pseudo : List RPat :=
-    (if sendShape then
-      [if cursorFits k.richCursor c.bpp s.curW s.curH then RPat.cursor curEnc s.curXhot s.curYhot s.curW s.curH
-       else RPat.cursor curEnc 0 0 0 0] else []) ++
-    (if sendPos then [RPat.pseudo rfbEncodingPointerPos] else []) ++
-    (if sendLed then [RPat.pseudo rfbEncodingKeyboardLedState] else []) ++
-    (if sendSM then [RPat.pseudo rfbEncodingSupportedMessages] else []) ++
-    (if sendSE then [RPat.pseudo rfbEncodingSupportedEncodings] else []) ++
-    (if sendID then [RPat.pseudo rfbEncodingServerIdentity] else [])
-  let copies : List RPat := o.cpy.map fun g0 =>
-    let g := if scaledOn then scaledCorrection s.w s.h vw vh g0 else g0   -- always called in C; identity if unscaled
-    RPat.copy g (u16 ((g.x : Int) - dxs)) (u16 ((g.y : Int) - dys))
-  let pix : List RPat := gs.flatMap fun g =>
-    match emitFor enc k.lastRect g with
-    | some l => l.map fun q => RPat.exact q (allowedEncs enc)
-    | none => [RPat.tightAny enc g]
-  let tail : List RPat := if sendsLastRect regionN then [RPat.pseudo rfbEncodingLastRect] else []
-  let caps' := { k with cursorWasChanged := if sendShape then false else k.cursorWasChanged,
-                        cursorWasMoved := if sendPos then false else k.cursorWasMoved,
+  let f := pseudoFlags s c
+  let gs := viewRegion s c o
+  let regionN := regionCount c.enc k.lastRect gs 0
+  let nRects := nRectsField o.cpy.length regionN f.count
+  let caps' := { k with cursorWasChanged := if f.shape then false else k.cursorWasChanged,
+                        cursorWasMoved := if f.pos then false else k.cursorWasMoved,
                         supMsgs := false, supEncs := false, identity := false }
-  let c' := { c with caps := caps', lastLed := if sendLed then s.led else c.lastLed }
-  (c', ⟨nRects, pseudo ++ copies ++ pix ++ tail⟩)
+  let c' := { c with caps := caps', lastLed := if f.led then s.led else c.lastLed }
+  (c', ⟨nRects, pseudoPats s c f ++ copyPats s c o ++ pixPats c.enc k.lastRect gs ++ tailPats regionN⟩)
+
+/-- the encoding numbers a predicted rectangle may carry -/
+def RPat.encs : RPat → List Nat
+  | .exact _ encs => encs
+  | .pseudo e => [e]
+  | .cursor e .. => [e]
+  | .copy .. => [rfbEncodingCopyRect]
+  | .tightAny e _ => [e]
 
 /-! ### comparison of a prediction with the parsed rectangles -/
 
